@@ -25,8 +25,9 @@ func CompileLuaChunk(source string, s ast.BlockStat) (kidx uint, consts []ir.Con
 	irC := rootIrC.NewChild("<main chunk>")
 	c := &compiler{CodeBuilder: irC}
 	c.compileFunctionBody(ast.Function{
-		ParList: ast.ParList{HasDots: true},
-		Body:    s,
+		ParList:    ast.ParList{HasDots: true},
+		Body:       s,
+		BareReturn: s.Return != nil && len(s.Return) == 0,
 	})
 	kidx, _ = irC.Close()
 	return kidx, kp.Constants(), nil
